@@ -43,6 +43,21 @@ def edge_shapes(tier):
                 prog = A.file([A.stanza("(module) @m ", st + at)])
             cases += A.both_modes("c01e-%d" % k, prog, 1 + k % 3)
             k += 1
+    # an attribute on an edge, then another edge out of the same node to an OLDER node, then the first edge again (a lookup that is
+    # repeated after the edge list has changed)
+    for rep in range(3 if tier == "quick" else 10):
+        names = ["o%d" % j for j in range(4)]
+        st = [A.node(v(n)) for n in names] + [A.node(v("hub"))]
+        order = names[:]
+        r.shuffle(order)
+        for j, n in enumerate(order):
+            st.append(A.edge(v("hub"), v(n)))
+            st.append(A.attre(v("hub"), v(n), A.attr("first", i(j))))
+            if j > 0:
+                prev = order[r.randrange(j)]
+                st.append(A.attre(v("hub"), v(prev), A.attr("again%d" % j, A.string(prev))))
+                st.append(A.attre(v("hub"), v(order[0]), A.attr("first", i(0))))
+        cases += A.both_modes("c01e2-%d" % rep, A.file([A.stanza("(module) @_m ", st)]), 1 + rep % 3)
     # forward references and cycles between scoped variables (lazy: a forward reference is fine, a cycle is an error; strict: both fail)
     m = c("m")
     sv = lambda n: A.svar(m, n)
